@@ -24,12 +24,14 @@ KINDS = ["req", "def", "fac", "kreq", "kdef", "noinit", "optnone", "optdef", "co
 def bounds(tier):
     return dict(tier=tier, max_layout_length=4 if tier == "quick" else 5, kinds=KINDS,
                 splits="every base/child split below the maximum length; at the maximum length no split and a split after 2 fields",
-                override="first defaulted base field re-declared in the child; three-level variants (override in the middle class, bottom class inherits)", entry_points=["mixin", "codec"],
+                override="first base field (defaulted, required or init=False) re-declared in the child, as field(default=...) and as a bare class-body default; three-level variants (override in the middle class, bottom class inherits)", entry_points=["mixin", "codec"],
                 presence=["absent", "present", "present-null (nullable kinds)"])
 
 
 # the child re-declares f0: a new default for a defaulted field, a default for a required one, a non-None default for Optional = None
-OVERRIDE_DEFAULT = {"def": 900, "optdef": 901, "kdef": 902, "req": 903, "optnone": 904, "kreq": 905}
+# ("noinit": the child turns an init=False member into an ordinary constructor parameter).  override == "bare" writes the re-declaration
+# as a plain class-body default (`f0: int = 900`) instead of field(default=900).
+OVERRIDE_DEFAULT = {"def": 900, "optdef": 901, "kdef": 902, "req": 903, "optnone": 904, "kreq": 905, "noinit": 906}
 
 
 def mkfield(kind, i):
@@ -73,9 +75,13 @@ def units(tier):
             for split in range(0, n):
                 if n == maxlen and split not in (0, 2):
                     continue   # the longest layouts are split in one place only (stated in bounds)
-                overrides = (False, True) if (split and layout[0] in ("def", "optdef", "kdef", "req", "optnone", "kreq")) else (False,)
+                overrides = (False, True) if (split and layout[0] in OVERRIDE_DEFAULT) else (False,)
+                if split and layout[0] in ("def", "optdef", "req", "optnone", "noinit"):
+                    overrides += ("bare",)
                 for ov in overrides:
                     out.append((layout, split, ov))
+                    if ov == "bare":
+                        continue
                     if split and (n < maxlen or ov):
                         # three levels: Base <- Child (declares / overrides) <- Bottom (inherits without re-annotating)
                         out.append((layout, split, "middle" if ov else "bottom"))
@@ -101,11 +107,12 @@ def build(layout, split, override, mixin, ctx):
         Base = make_dataclass("Base", fields[:split], bases=bases, namespace=ns_b)
         ctx.ns["Base"] = Base
         child_fields = fields[split:]
-        if override in (True, "middle"):
+        if override in (True, "middle", "bare"):
             k0 = layout[0]
             new_default = OVERRIDE_DEFAULT[k0]
             t0 = fields[0][1]
-            child_fields = [("f0", t0, field(default=new_default, kw_only=(k0 in ("kdef", "kreq"))))] + child_fields
+            spec = new_default if override == "bare" else field(default=new_default, kw_only=(k0 in ("kdef", "kreq")))
+            child_fields = [("f0", t0, spec)] + child_fields
         if iv:
             ns["__post_init__"] = _post_init(iv[0])
         cls = make_dataclass("Child", child_fields, bases=(Base,), namespace=ns)
@@ -135,7 +142,10 @@ def expected(layout, override, present):
             d[name] = {"fac": [5], "facnoinit": [6], "conv": "2020-02-03"}.get(k, 50 + i)
         elif p == 2:
             d[name] = None
-        if k == "noinit":
+        overridden = override in (True, "middle", "bare") and i == 0
+        if k == "noinit" and overridden:
+            exp[name] = d[name] if p == 1 else OVERRIDE_DEFAULT[k]
+        elif k == "noinit":
             exp[name] = 300 + i
         elif k == "facnoinit":
             exp[name] = [7]
@@ -148,7 +158,6 @@ def expected(layout, override, present):
         elif p == 2:
             exp[name] = None
         else:
-            overridden = override in (True, "middle") and i == 0
             if k in ("req", "kreq", "conv") and not overridden:
                 if missing is None:
                     missing = name
